@@ -126,6 +126,11 @@ class RetryMonitor(Monitor):
                 ok = any(f[0] == "abandon" for f in rec.faults) and rec.post.state == "IDLE" and not eofs
                 if not ok:
                     w.violate("C04.eof_abandon", f"N={self.N_ack} count={p.count} faults={[f[0] for f in rec.faults]} post={rec.post.step}", "")
+                else:
+                    # the fault declared at this expiry is the limit fault of the procedure, whatever started the cancel exchange
+                    ab = [f for f in rec.faults if f[0] == "abandon"]
+                    if ab and ab[0][2] != POS_ACK_LIMIT:
+                        w.violate("C04.abandon_condition", f"sender abandon callback carries condition {ab[0][2]} instead of Positive ACK Limit Reached", "")
                 w.probe("C04.sender_abandoned")
                 self.eof = None
             return
